@@ -95,9 +95,9 @@ func rangeKinds() []rkind {
 		{name: "conv:slice-of-array", setup: []string{`arr := [3]int{11, 22, 33}`}, expr: "arr[:]", nowrap: true, hasVal: true, keyInt: true,
 			mutate: []string{`arr[2] = 99`, `arr = [3]int{7, 8, 9}`}},
 		// kinds the compiler leaves native (a yield in the loop body is rejected): behaviour must stay Go's
-		{name: "ptr-array", setup: []string{`c := &[3]int{11, 22, 33}`}, hasVal: true, keyInt: true, mutate: []string{`c[2] = 99`, `c = &[3]int{7, 8, 9}`}, bodies: []string{"native", "closure", "native-break-continue"}},
-		{name: "ptr-array:nil", setup: []string{`var c *[3]int`}, hasVal: true, keyInt: true, defineOnly: true, bodies: []string{"native", "closure", "native-break-continue"}},
-		{name: "func:seq2", setup: []string{`c := func(yield func(int, int) bool) {`, `	for i := 0; i < 3; i++ {`, `		tr.E(8)`, `		if !yield(i, i*11) {`, `			return`, `		}`, `	}`, `}`}, hasVal: true, keyInt: true, nowrap: true, bodies: []string{"native", "closure", "native-break-continue"}},
+		{name: "ptr-array", setup: []string{`c := &[3]int{11, 22, 33}`}, hasVal: true, keyInt: true, mutate: []string{`c[2] = 99`, `c = &[3]int{7, 8, 9}`}, bodies: []string{"native", "closure", "closure-var-update", "native-break-continue"}},
+		{name: "ptr-array:nil", setup: []string{`var c *[3]int`}, hasVal: true, keyInt: true, defineOnly: true, bodies: []string{"native", "closure", "closure-var-update", "native-break-continue"}},
+		{name: "func:seq2", setup: []string{`c := func(yield func(int, int) bool) {`, `	for i := 0; i < 3; i++ {`, `		tr.E(8)`, `		if !yield(i, i*11) {`, `			return`, `		}`, `	}`, `}`}, hasVal: true, keyInt: true, nowrap: true, bodies: []string{"native", "closure", "closure-var-update", "native-break-continue"}},
 	}
 }
 
@@ -252,6 +252,30 @@ func rangeProgram(k rkind, form, body, mutation string, wrapExpr bool, n int) *e
 		line("}")
 		line("YIELD(f())")
 		line("YIELD(f())")
+	case "closure-var-update":
+		// as above, and the body assigns to the iteration variable (which must not steer the iteration); the
+		// `=` forms read the variable after the loop
+		line("n := 0")
+		line("f := func() int {")
+		ind++
+		line("sum := 0")
+		line("%s", head)
+		ind++
+		line("sum += tr.V(2, %s)", ve)
+		if key != "" && k.keyInt && !strings.HasPrefix(k.name, "chan") {
+			line("%s += 2", key)
+		}
+		mut()
+		ind--
+		line("}")
+		if strings.HasSuffix(form, "=") && !strings.HasSuffix(form, ":=") && (!k.maporder) {
+			line("sum += 1000 * tr.V(3, %s)", ve)
+		}
+		line("return sum")
+		ind--
+		line("}")
+		line("YIELD(f())")
+		line("YIELD(f())")
 	case "break-continue":
 		line("n := 0")
 		line("%s", head)
@@ -370,7 +394,7 @@ func rangeProgram(k rkind, form, body, mutation string, wrapExpr bool, n int) *e
 
 // Range returns the systematic range stream; sample < 1 keeps a PRNG subset.
 func Range(seed int64, keep int, quarantine map[string]bool) (progs []*e1.Program, total int) {
-	allBodies := []string{"yield", "native", "closure", "break-continue", "native-break-continue", "nested", "yield-after-loop-var-update", "native-loop-var-update", "capture"}
+	allBodies := []string{"yield", "native", "closure", "closure-var-update", "break-continue", "native-break-continue", "nested", "yield-after-loop-var-update", "native-loop-var-update", "capture"}
 	var all []*e1.Program
 	n := 0
 	for _, k := range rangeKinds() {
